@@ -44,6 +44,7 @@ CONSTANTS
   ClassComments, \* comment styles a namespace-scope class may carry
   AliasAlpha,    \* set of <<form, wrap>>: form \in {"typedef","using"}, wrap \in {"plain","ptr","cptr","cref","rref"}
   MaxAliases,
+  NestedLike,    \* BOOLEAN: a nested class may reuse the simple name of an earlier namespace-scope class
   CmdKinds       \* subset of {"ignoremember","ignoretype","ignoreinvolved","ignorefile","forcetype"}
 
 VARIABLES lib, cur, done
@@ -56,7 +57,8 @@ NoSig == [role |-> "meth", ret |-> [b |-> "void", m |-> "val", c |-> 0], ps |-> 
 \* cm: the documentation comment written on the line before the declaration ("" | "//" | "/*")
 \* ra: the alias a signature names its type through (0 = none), uw: how the alias is used ("ptr" | "cref" | "val")
 \* nm: the declared name when it is not the entity's unique marker (an operator, an overloaded name)
-Mem(k, lab) == [k |-> k, lab |-> lab, rc |-> 0, ri |-> 0, ra |-> 0, uw |-> "", nm |-> "", sig |-> NoSig, cm |-> ""]
+\* gi: the member (an accessor function of the same class) a MAKE_PROPERTY / MAKE_SEQ names (0 = none)
+Mem(k, lab) == [k |-> k, lab |-> lab, rc |-> 0, ri |-> 0, ra |-> 0, gi |-> 0, uw |-> "", nm |-> "", sig |-> NoSig, cm |-> ""]
 Top(k, region, ns) == [k |-> k, file |-> 1, region |-> region, ns |-> ns, rc |-> 0, ri |-> 0, ra |-> 0, uw |-> "",
                        sig |-> NoSig, cm |-> ""]
 NoCmd == [c |-> "none", k |-> 0, i |-> 0]
@@ -93,6 +95,11 @@ TopVis(t) == IF lib.tops[t].region THEN "published" ELSE "public"
 
 Depth(c) == IF Cls(c).outer = 0 THEN 1 ELSE 2
 
+\* access of base b of class c: written out, or by default private for a class and public for a struct
+\* (the key of the DERIVED class decides, [class.access.base])
+BaseAcc(c, b) == LET a == Cls(c).bases[b].acc IN
+  IF a # "default" THEN a ELSE IF Cls(c).key = "class" THEN "private" ELSE "public"
+
 ---------------------------------------------------------------------------
 (* Construction of the library, one declaration per step.                  *)
 
@@ -116,8 +123,13 @@ AddFile ==
 
 \* what a signature may refer to: an earlier complete class, or an enum declared earlier in class c
 ClassRefs(c) == {r \in 1..NC : r # c /\ (c = 0 \/ r # Cls(c).outer)}
+\* plain, scoped (enum class), written on one line, written on one line with a comment in the enumerator list
+EnumKinds == {"enum", "senum", "enum1", "enumc"}
 EnumRefs(c) == IF c = 0 THEN {} ELSE {i \in 1..NM(c) : Mbr(c, i).k = "enum"}
-NeedsRef(k) == k \in {"usep", "user", "datap", "usef", "tdefc"}
+NeedsRef(k) == k \in {"usep", "user", "datap", "dataa", "usef", "tdefc", "ctorof"}
+\* __make_property(name, getter) names a "getter" member, __make_seq(name, num_getter, element_getter) a "seqget" member
+NeedsGetter(k) == k \in {"mprop", "mseq"}
+GetterRefs(c, k) == {i \in 1..NM(c) : Mbr(c, i).k = (IF k = "mprop" THEN "getter" ELSE "seqget")}
 NeedsEnum(k) == k \in {"usee"}
 NeedsAlias(k) == k \in {"usea", "reta", "usefa"}
 
@@ -145,7 +157,7 @@ AddClass ==
      \E bs \in BaseLists : \E cm \in ClassComments :
        /\ lib' = [lib EXCEPT
              !.classes = Append(@, [file |-> f, key |-> h[1], region |-> h[2], ns |-> h[3],
-                                     outer |-> 0, at |-> 0, bases |-> bs, members |-> <<>>, cm |-> cm]),
+                                     outer |-> 0, at |-> 0, bases |-> bs, members |-> <<>>, cm |-> cm, like |-> 0]),
              !.order = Append(@, [t |-> "c", id |-> NC + 1])]
        /\ cur' = NC + 1
   /\ UNCHANGED done
@@ -153,8 +165,10 @@ AddClass ==
 AddMember ==
   /\ ~done /\ cur # 0 /\ NM(cur) < MaxMembers[Depth(cur)]
   /\ \E m \in MemberAlpha[Depth(cur)] :
-       \/ /\ ~NeedsRef(m.k) /\ ~NeedsEnum(m.k) /\ ~NeedsAlias(m.k)
+       \/ /\ ~NeedsRef(m.k) /\ ~NeedsEnum(m.k) /\ ~NeedsAlias(m.k) /\ ~NeedsGetter(m.k)
           /\ lib' = [lib EXCEPT !.classes[cur].members = Append(@, m)]
+       \/ /\ NeedsGetter(m.k)
+          /\ \E g \in GetterRefs(cur, m.k) : lib' = [lib EXCEPT !.classes[cur].members = Append(@, [m EXCEPT !.gi = g])]
        \/ /\ NeedsAlias(m.k)
           /\ \E a \in AliasRefs(cur) : lib' = [lib EXCEPT !.classes[cur].members = Append(@, [m EXCEPT !.ra = a])]
        \/ /\ NeedsRef(m.k)
@@ -167,10 +181,12 @@ AddMember ==
 AddNested ==
   /\ ~done /\ cur # 0 /\ Depth(cur) = 1 /\ NC < MaxClasses /\ NM(cur) < MaxMembers[1]
   /\ \E key \in NestedKeys : \E l \in Labels :
+     \E lk \in {0} \cup (IF NestedLike THEN {r \in 1..NC : r # cur /\ Cls(r).outer = 0} ELSE {}) :
        lib' = [lib EXCEPT
           !.classes = Append([@ EXCEPT ![cur].members = Append(@, [Mem("nclass", l) EXCEPT !.rc = NC + 1])],
                              [file |-> Cls(cur).file, key |-> key, region |-> FALSE, ns |-> Cls(cur).ns,
-                              outer |-> cur, at |-> NM(cur) + 1, bases |-> <<>>, members |-> <<>>, cm |-> ""])]
+                              outer |-> cur, at |-> NM(cur) + 1, bases |-> <<>>, members |-> <<>>, cm |-> "",
+                              like |-> lk])]
   /\ cur' = NC + 1
   /\ UNCHANGED done
 
@@ -260,8 +276,32 @@ RetFacts(c, s) ==
   IF s.role = "ctor" THEN [has |-> TRUE, owns |-> TRUE, t |-> ClsT(c, "ptr")]
   ELSE [has |-> s.ret.b # "void", owns |-> s.ret.b = "cls" /\ s.ret.m = "val", t |-> RemapT(s.ret)]
 
+\* the virtual role: a member function is virtual iff it is declared virtual or overrides (has the name and parameters
+\* of) a function declared virtual in ANY direct or indirect base; members that share a name `nm` here share parameters
+DeclaresName(c, n) == {i \in 1..NM(c) : Mbr(c, i).nm = n}
+RECURSIVE VirtualIn(_, _)
+VirtualIn(c, n) == (\E i \in DeclaresName(c, n) : Mbr(c, i).sig.role = "virt")
+                   \/ \E b \in 1..Len(Cls(c).bases) : VirtualIn(Cls(c).bases[b].c, n)
+InheritedVirtual(c, i) == Mbr(c, i).nm # "" /\ Mbr(c, i).sig.ps = <<>> /\ Mbr(c, i).sig.role \in {"meth", "virt", "over"}
+                          /\ \E b \in 1..Len(Cls(c).bases) : VirtualIn(Cls(c).bases[b].c, Mbr(c, i).nm)
+IsVirtualFn(c, i) == Mbr(c, i).k \in {"vmeth"} \/ (Mbr(c, i).k = "sig" /\ Mbr(c, i).sig.role = "virt") \/ InheritedVirtual(c, i)
+\* where name lookup from class c finds n: in c itself, else in its bases, depth first in declaration order
+RECURSIVE FirstDecl(_, _), FirstIn(_, _, _)
+FirstIn(c, n, b) == IF b > Len(Cls(c).bases) THEN 0
+                    ELSE LET d == FirstDecl(Cls(c).bases[b].c, n) IN IF d # 0 THEN d ELSE FirstIn(c, n, b + 1)
+FirstDecl(c, n) == IF DeclaresName(c, n) # {} THEN c ELSE FirstIn(c, n, 1)
+\* "if this function is a virtual function whose first appearance is in some base class, we don't need to repeat its
+\* definition here": an override in a class with exactly one public non-virtual base is not listed again when every
+\* declaration the base offers under that name is published (define_method, is_inherited_published)
+SkipInherited(c, i) ==
+  /\ InheritedVirtual(c, i)
+  /\ Len(Cls(c).bases) = 1 /\ Rank(BaseAcc(c, 1)) <= 1 /\ ~Cls(c).bases[1].virt
+  /\ LET d == FirstDecl(Cls(c).bases[1].c, Mbr(c, i).nm) IN
+       d # 0 /\ \A j \in DeclaresName(d, Mbr(c, i).nm) : VisAt(d, j) = "published"
+
 \* polymorphism and cast availability (define_struct_type)
 OwnVirtual(c) == \E i \in 1..NM(c) : Mbr(c, i).k \in {"vmeth", "vdtor"} \/ (Mbr(c, i).k = "sig" /\ Mbr(c, i).sig.role = "virt")
+                                       \/ InheritedVirtual(c, i)
 RECURSIVE Poly(_)
 Poly(c) == OwnVirtual(c) \/ \E b \in 1..Len(Cls(c).bases) : Poly(Cls(c).bases[b].c)
 \* a destructor that overrides the virtual destructor of the only (public, non-virtual) base is not repeated: the
@@ -271,7 +311,7 @@ RECURSIVE VirtualDtor(_)
 VirtualDtor(c) == (\E i \in 1..NM(c) : Mbr(c, i).k = "vdtor") \/ \E b \in 1..Len(Cls(c).bases) : VirtualDtor(Cls(c).bases[b].c)
 InheritsDtor(c) ==
   /\ DeclaresDtor(c) /\ Len(Cls(c).bases) = 1
-  /\ Rank(Cls(c).bases[1].acc) <= 1 /\ ~Cls(c).bases[1].virt
+  /\ Rank(BaseAcc(c, 1)) <= 1 /\ ~Cls(c).bases[1].virt
   /\ VirtualDtor(Cls(c).bases[1].c)
 RECURSIVE DtorOwner(_)
 DtorOwner(c) == IF InheritsDtor(c) THEN DtorOwner(Cls(c).bases[1].c) ELSE c
@@ -281,7 +321,7 @@ NeedsCast(c, b) == LET B == Cls(c).bases[b] IN
   B.virt \/ b # 1 \/ Len(Cls(c).bases) # 1 \/ (Poly(c) /\ ~Poly(B.c))
 Derivations(c) ==
   {[base |-> Cls(c).bases[b].c, up |-> NeedsCast(c, b), down |-> NeedsCast(c, b) /\ ~Cls(c).bases[b].virt,
-    impossible |-> Cls(c).bases[b].virt] : b \in {x \in 1..Len(Cls(c).bases) : Rank(Cls(c).bases[x].acc) <= 1}}
+    impossible |-> Cls(c).bases[b].virt] : b \in {x \in 1..Len(Cls(c).bases) : Rank(BaseAcc(c, x)) <= 1}}
 
 ---------------------------------------------------------------------------
 (* Model invariants (C05 "TLC": the ground truth is well formed).          *)
